@@ -31,13 +31,16 @@ type c08Env struct {
 	stopping []bool
 }
 
+// c08Period is the restart period (seconds) of the next supervisor built by c08Setup.
+var c08Period uint16 = 5
+
 func c08Setup(typ SupervisorType, strategy SupervisorStrategy, keep bool, n int, intensity uint16, sig []bool, noAuto bool) *c08Env {
 	b := &vfSupBehavior{}
 	b.spec.Type = typ
 	b.spec.Restart.Strategy = strategy
 	b.spec.Restart.KeepOrder = keep
 	b.spec.Restart.Intensity = intensity
-	b.spec.Restart.Period = 5
+	b.spec.Restart.Period = c08Period
 	b.spec.DisableAutoShutdown = noAuto
 	for i := 0; i < n; i++ {
 		cs := SupervisorChildSpec{Name: vfChildNames[i], Factory: factoryNil}
@@ -400,7 +403,7 @@ func VerifC08Significant() {
 }
 
 // VerifC09Supervisor: restart intensity through the real supervisor. Permanent children crash
-// repeatedly with the clock advanced by a symbolic amount in between (Intensity 1, Period 5 s):
+// repeatedly with the clock advanced by a symbolic amount in between (Intensity 1, Period 5 / 66 / 4000 / 65535 s):
 // at or below the limit the child is restarted, on the (Intensity+1)-th failure within the period
 // every child is stopped and the supervisor ends with the 'restart intensity exceeded' reason.
 func VerifC09Supervisor() {
@@ -408,7 +411,12 @@ func VerifC09Supervisor() {
 	typ := SupervisorType(sh % 3)
 	n := lib.VerifParam("children", 2)
 	k := lib.VerifParam("failures", 3)
+	// the period is taken from a boundary set of the uint16 range (5 s: both sides of the window are
+	// reached with the clock steps below; the larger ones: every failure lies inside the window)
+	c08Period = []uint16{5, 66, 4000, 65535}[lib.VerifPick("period", 4)]
+	win := int64(c08Period) * 1000
 	e := c08Setup(typ, SupervisorStrategyPermanent, false, n, 1, nil, true)
+	c08Period = 5
 	var times []int64
 	t := int64(0)
 	for f := 0; f < k && e.final == nil; f++ {
@@ -420,8 +428,8 @@ func VerifC09Supervisor() {
 		cnt := 0
 		for _, u := range times {
 			d := t - u
-			lib.VerifAssume(d < 5000-50 || d > 5000+50)
-			cnt += lib.VerifIte(d <= 5000, 1, 0)
+			lib.VerifAssume(d < win-50 || d > win+50)
+			cnt += lib.VerifIte(d <= win, 1, 0)
 		}
 		i := lib.VerifPick("victim", n)
 		pid, live := e.livePid(i)
